@@ -430,7 +430,7 @@ func (e *fnEnc) call(st *state, at ssa.Value, c *ssa.CallCommon, instr ssa.Instr
 				continue
 			}
 			cfn := mc.Fn.(*ssa.Function)
-			cfc := e.V.C.Funcs[funcKey(cfn)]
+			cfc := e.V.contractOfFn(cfn)
 			if cfc == nil {
 				if !e.V.SweepSet[funcKey(cfn)] && !e.V.Sweep {
 					e.V.Assumed["callback literal without contract: "+funcKey(cfn)] = true
@@ -538,7 +538,7 @@ func (e *fnEnc) call(st *state, at ssa.Value, c *ssa.CallCommon, instr ssa.Instr
 				continue
 			}
 			cfn := mc.Fn.(*ssa.Function)
-			cfc := e.V.C.Funcs[funcKey(cfn)]
+			cfc := e.V.contractOfFn(cfn)
 			if cfc == nil || len(cfn.Params) != 2 {
 				continue
 			}
@@ -580,6 +580,37 @@ func (e *fnEnc) call(st *state, at ssa.Value, c *ssa.CallCommon, instr ssa.Instr
 	}
 	post := e.calleeEnv(st, pre, c, callee, args)
 	post.results = results
+	post.cbApply = func(param string, cargs []tval) string {
+		if callee == nil {
+			panic(unsupported("contract: cb() at a call without a static callee"))
+		}
+		for pi, prm := range callee.Params {
+			if prm.Name() != param || pi >= len(c.Args) {
+				continue
+			}
+			mc := asClosure(c.Args[pi])
+			if mc == nil {
+				panic(unsupported("contract: cb(" + param + "): the argument is not a function literal"))
+			}
+			cfn := mc.Fn.(*ssa.Function)
+			cfc := e.V.contractOfFn(cfn)
+			if cfc != nil {
+				for _, en := range cfc.Ensures {
+					if b, isBin := en.Expr.(*EBinary); isBin && b.Op == "<==>" {
+						if id, isId := b.X.(*EIdent); isId && id.Name == "result" {
+							cfc.Used = true
+							cenv := e.closureEnv(st, pre, mc, cargs)
+							cenv.noDef = true
+							e.V.Assumed[fmt.Sprintf("%s relates its result to what the literal passed for %s returns (the literal's own verified postcondition)", shortCallee(key), param)] = true
+							return cenv.evalBool(b.Y)
+						}
+					}
+				}
+			}
+			panic(unsupported("contract: cb(" + param + "): the literal " + funcKey(cfn) + " has no postcondition of the form `result <==> E`"))
+		}
+		panic(unsupported("contract: cb(" + param + "): no such parameter"))
+	}
 	post.resultNames = resultNames(sig, callee)
 	if fc.Fresh {
 		for _, r := range results {
@@ -682,10 +713,27 @@ func (e *fnEnc) checkFrameCallMods(st *state, c *ssa.CallCommon, fc *FuncContrac
 			case a.region != "":
 				e.frameCheckRegion(st, a.region, c.Pos(), "call:"+shortCallee(fc.Key))
 			default:
-				e.frameCheck(st, a.addr, c.Pos(), "call:"+shortCallee(fc.Key))
+				for _, leaf := range structLeaves(a.addr, a.typ) {
+					e.frameCheck(st, leaf, c.Pos(), "call:"+shortCallee(fc.Key))
+				}
 			}
 		}
 	}
+}
+
+// structLeaves: a struct-valued region is written field by field (nested structs expanded);
+// anything else is one cell (an array is checked at its own address, as a whole).
+func structLeaves(addr string, t types.Type) []string {
+	if t != nil {
+		if u, ok := t.Underlying().(*types.Struct); ok {
+			var out []string
+			for i := 0; i < u.NumFields(); i++ {
+				out = append(out, structLeaves(fldAddr(addr, i), u.Field(i).Type())...)
+			}
+			return out
+		}
+	}
+	return []string{addr}
 }
 
 // havocMods replaces the cells named in a callee's modifies clause by unknowns.
@@ -1254,4 +1302,16 @@ func firstSelectWith(t, with, without string) string {
 	}
 	walk(fs[0])
 	return found
+}
+
+// contractOfFn: the contract keyed by the function, or - for an instance of a generic function
+// (or a literal inside one) - by the generic function it was instantiated from.
+func (V *Verifier) contractOfFn(fn *ssa.Function) *FuncContract {
+	if fc := V.C.Funcs[funcKey(fn)]; fc != nil {
+		return fc
+	}
+	if o := fn.Origin(); o != nil && o != fn {
+		return V.C.Funcs[funcKey(o)]
+	}
+	return nil
 }
